@@ -302,6 +302,11 @@ def write_evidence(pid, tier, ctx, wall, n_viol, thorough_info=None):
 def load_progs(config="default", root=None):
     # scratch copies (mutant self-check) are analysed once: do not let them evict /repo's cache entry
     fx = F.extract(root or REPO, config, use_cache=(root is None or root == REPO))
+    return programs_from_facts(fx)
+
+
+def programs_from_facts(fx):
+    """facts of one configuration -> Programs in normal form (renames undone, helpers inlined, combinators desugared)"""
     import inline
     out = {}
     import rename
